@@ -56,12 +56,15 @@ type Case struct {
 	PosKind   string `json:"pos_kind,omitempty"`
 	// Batch: run Op on each of these values in turn (grid sweep); the answer is a batchResult.
 	Batch []val.V `json:"batch,omitempty"`
+	// BatchDamage: run Op on Value damaged in each of these ways in turn (damage grid); the answer is a batchResult.
+	BatchDamage []Damage `json:"batch_damage,omitempty"`
 }
 
 type Damage struct {
 	Loc    int    `json:"loc"`
 	Action string `json:"action"` // zero, foreign
 	With   val.V  `json:"with"`
+	Exact  bool   `json:"exact,omitempty"` // grid mode: skip instead of wrapping Loc around or zeroing a misfit
 }
 
 type result struct {
@@ -129,6 +132,59 @@ func deepValue(kind string, depth int) any {
 	return nil
 }
 
+// applyDamage obtains a genuine native value (Unserialize of a valid raw value; not judged here) and damages it by
+// reflection at one settable location. The second result is non-empty when there is nothing to damage.
+func applyDamage(sch schema.Type, value any, d *Damage) (any, string) {
+	var native any
+	var uerr error
+	func() {
+		defer func() {
+			if e := recover(); e != nil {
+				uerr = fmt.Errorf("panic: %v", e)
+			}
+		}()
+		native, uerr = sch.Unserialize(value)
+	}()
+	if uerr != nil || native == nil {
+		return nil, "no native value to damage"
+	}
+	holder := reflect.New(reflect.TypeOf(native))
+	holder.Elem().Set(reflect.ValueOf(val.DeepCopy(native)))
+	var locs []reflect.Value
+	locations(holder.Elem(), &locs, 0)
+	if len(locs) == 0 {
+		return nil, "no location"
+	}
+	if d.Loc >= len(locs) && d.Exact {
+		return nil, "no such location"
+	}
+	loc := locs[d.Loc%len(locs)]
+	switch d.Action {
+	case "zero":
+		loc.Set(reflect.Zero(loc.Type()))
+	default:
+		with := d.With.Go()
+		wv := reflect.ValueOf(with)
+		switch {
+		case with == nil:
+			loc.Set(reflect.Zero(loc.Type()))
+		case wv.Type().AssignableTo(loc.Type()):
+			loc.Set(wv)
+		case wv.Type().ConvertibleTo(loc.Type()) && loc.Kind() != reflect.String:
+			func() {
+				defer func() { _ = recover() }()
+				loc.Set(wv.Convert(loc.Type()))
+			}()
+		default:
+			if d.Exact {
+				return nil, "value does not fit the location"
+			}
+			loc.Set(reflect.Zero(loc.Type()))
+		}
+	}
+	return holder.Elem().Interface(), ""
+}
+
 func workerFn(raw json.RawMessage) json.RawMessage {
 	var c Case
 	res := result{}
@@ -144,10 +200,22 @@ func workerFn(raw json.RawMessage) json.RawMessage {
 			res.Outcome, res.Text = "skip", err.Error()
 			return
 		}
-		if len(c.Batch) > 0 {
-			br := batchResult{Index: -1, Values: len(c.Batch)}
-			for i, bv := range c.Batch {
-				value := bv.Go()
+		if len(c.Batch) > 0 || len(c.BatchDamage) > 0 {
+			n := len(c.Batch) + len(c.BatchDamage)
+			br := batchResult{Index: -1, Values: n}
+			for i := 0; i < n; i++ {
+				var value any
+				if len(c.Batch) > 0 {
+					value = c.Batch[i].Go()
+				} else {
+					d := c.BatchDamage[i]
+					damaged, skip := applyDamage(sch, c.Value.Go(), &d)
+					if skip != "" {
+						br.Skips++
+						continue
+					}
+					value = damaged
+				}
 				var operr error
 				var pan any
 				var stack string
@@ -187,51 +255,12 @@ func workerFn(raw json.RawMessage) json.RawMessage {
 			value = c.Value.Go()
 		}
 		if c.Damage != nil {
-			// obtain a genuine native value first (not judged here), then damage it
-			var native any
-			var uerr error
-			func() {
-				defer func() {
-					if e := recover(); e != nil {
-						uerr = fmt.Errorf("panic: %v", e)
-					}
-				}()
-				native, uerr = sch.Unserialize(value)
-			}()
-			if uerr != nil || native == nil {
-				res.Outcome, res.Text = "skip", "no native value to damage"
+			damaged, skip := applyDamage(sch, value, c.Damage)
+			if skip != "" {
+				res.Outcome, res.Text = "skip", skip
 				return
 			}
-			holder := reflect.New(reflect.TypeOf(native))
-			holder.Elem().Set(reflect.ValueOf(val.DeepCopy(native)))
-			var locs []reflect.Value
-			locations(holder.Elem(), &locs, 0)
-			if len(locs) == 0 {
-				res.Outcome, res.Text = "skip", "no location"
-				return
-			}
-			loc := locs[c.Damage.Loc%len(locs)]
-			switch c.Damage.Action {
-			case "zero":
-				loc.Set(reflect.Zero(loc.Type()))
-			default:
-				with := c.Damage.With.Go()
-				wv := reflect.ValueOf(with)
-				switch {
-				case with == nil:
-					loc.Set(reflect.Zero(loc.Type()))
-				case wv.Type().AssignableTo(loc.Type()):
-					loc.Set(wv)
-				case wv.Type().ConvertibleTo(loc.Type()) && loc.Kind() != reflect.String:
-					func() {
-						defer func() { _ = recover() }()
-						loc.Set(wv.Convert(loc.Type()))
-					}()
-				default:
-					loc.Set(reflect.Zero(loc.Type()))
-				}
-			}
-			value = holder.Elem().Interface()
+			value = damaged
 		}
 		defer func() {
 			if e := recover(); e != nil {
